@@ -40,8 +40,9 @@ pub fn run(ctx: &Ctx, rep: &mut Report) {
         }
         let mut rng = Rng::derive(ctx.seed, 0xC09, wi);
         rep.progress_idx(wi, "C09 world");
-        // consistent compounds only (units concatenate to the key): the statement's precondition
-        let dopts = DictOpts { max_entries: 30, loose_compounds: false, ..DictOpts::default() };
+        // (every eighth world also has compounds whose key is longer than the concatenation of its units: the last unit then
+        // covers the rest of the word - boundaries, unit identities and the partition of the parent's range still hold)
+        let dopts = DictOpts { max_entries: 30, loose_compounds: wi % 8 == 6, ..DictOpts::default() };
         let world = match guard(|| {
             let matrix = crate::dictgen::gen_matrix(&mut rng, &dopts);
             let mut sys = crate::dictgen::gen_system(&mut rng, &dopts, &matrix);
